@@ -50,18 +50,26 @@ VENDOR_PREFIX = {"huawei": "undo", "cisco": "no"}
 
 
 class ORule:
-    def __init__(self, pattern, children=(), order_reverse=False, glob=False):
+    def __init__(self, pattern, children=(), order_reverse=False, glob=False, scope=None):
         self.pattern, self.children, self.order_reverse, self.glob = pattern, list(children), order_reverse, glob
+        self.scope = scope          # %scope=<names>: the rule is in force only where that scope is asked for ("patch": in patches)
 
     def line(self):
-        return self.pattern + (" %order_reverse" if self.order_reverse else "") + (" %global" if self.glob else "")
+        return (self.pattern + (" %order_reverse" if self.order_reverse else "") + (" %global" if self.glob else "")
+                + (" %%scope=%s" % self.scope if self.scope else ""))
+
+    def in_force(self, scope):
+        return self.scope is None or (scope is not None and scope in self.scope.split(","))
 
     def to_json(self):
-        return {"p": self.pattern, "r": self.order_reverse, "g": self.glob, "c": [c.to_json() for c in self.children]}
+        d = {"p": self.pattern, "r": self.order_reverse, "g": self.glob, "c": [c.to_json() for c in self.children]}
+        if self.scope:
+            d["s"] = self.scope
+        return d
 
     @staticmethod
     def from_json(d):
-        return ORule(d["p"], [ORule.from_json(c) for c in d["c"]], d["r"], d["g"])
+        return ORule(d["p"], [ORule.from_json(c) for c in d["c"]], d["r"], d["g"], d.get("s"))
 
 
 def otext(rules, ind=0):
@@ -104,8 +112,15 @@ def ordering_grammar(tier, prefix):
     out.append([ORule("b"), ORule("%s c" % prefix, order_reverse=True, glob=True), ORule("d", glob=True)])
     # specific rows
     out.append([ORule("b x"), ORule("a"), ORule("b y")])
+    # %scope: a rule scoped to patches is in force in every patch (top level, %global, nested); a rule of another scope is
+    # not there at all (the later unscoped rule for the same rows then ranks them)
+    out.append([ORule("c", scope="patch"), ORule("b")])
+    out.append([ORule("b"), ORule("d", glob=True, scope="patch"), ORule("a", [ORule("c")])])
+    out.append([ORule("a", [ORule("d", scope="patch"), ORule("c")]), ORule("b", scope="patch,other")])
+    out.append([ORule("c", scope="other"), ORule("b"), ORule("c")])
+    out.append([ORule("b"), ORule("a", [ORule("c")]), ORule("d", glob=True, scope="other"), ORule("a", [ORule("d")])])
     if tier == "quick":
-        keep = out[-4:]
+        keep = out[-9:]
         out = out[::2] + out[1::8] + [o for o in keep if o not in out[::2] and o not in out[1::8]]
     return out
 
@@ -124,7 +139,7 @@ def setup():
 
 
 # ---- reference rank --------------------------------------------------------------------------------
-def rank(level_rules, inherited_globals, cmd, is_removal, prefix):
+def rank(level_rules, inherited_globals, cmd, is_removal, prefix, scope="patch"):
     """-> (rank | None, rules in force one level below, [])
 
     Rules in force below a command, in rank order: scanning the rules of this level in file order, a %global rule is
@@ -135,6 +150,8 @@ def rank(level_rules, inherited_globals, cmd, is_removal, prefix):
     best = None
     kids = []
     for i, r in enumerate(level_rules, start=1):
+        if not r.in_force(scope):
+            continue
         if r.glob and r not in kids:
             kids.append(r)
         direct = rulelang.ref_match(r.pattern, cmd) is not None
@@ -456,6 +473,9 @@ def nested_order_rulebooks(prefix):
         # children (it is handed down where it stands in the file), so a nested 'a ...' row precedes 'c ...' and 'd ...'
         [ORule("a", [ORule("c"), ORule("d")], glob=True), ORule("b")],
         [ORule("b"), ORule("a", [ORule("d"), ORule("c")], glob=True)],
+        # %scope=patch rules are not in force when a configuration is ordered: the unscoped rule for the same rows ranks them
+        [ORule("b", scope="patch"), ORule("a", [ORule("d", scope="patch"), ORule("c"), ORule("d")]), ORule("b")],
+        [ORule("d", glob=True, scope="patch"), ORule("a", [ORule("c"), ORule("d")]), ORule("b")],
     ]
 
 
@@ -517,7 +537,7 @@ def check_config_ranks(cfg, level_rules, prefix, probs, path=()):
     ranked = []
     for row, ch in cfg:
         negated = row.startswith(prefix + " ")
-        rk, kids, _ = rank(level_rules, [], row, negated, prefix)
+        rk, kids, _ = rank(level_rules, [], row, negated, prefix, scope=None)
         if rk is not None and not negated:
             ranked.append((rk, row))
         if ch:
